@@ -5,6 +5,8 @@ import (
 	"encoding/hex"
 	"fmt"
 	"sync"
+	"sync/atomic"
+	"time"
 
 	"free5gclib/milenage"
 	"free5gclib/nas"
@@ -34,6 +36,9 @@ func init() {
 					k[15], k[14] = 0, 0
 				}
 				msg := bytes.Repeat([]byte{byte(g), byte(i)}, 20+g%7)
+				if i%64 == 37 {
+					msg = []byte{} // nothing to cipher (an empty, non-nil payload)
+				}
 				if i%4 == 0 {
 					// every UE ciphers a long message (several keystream blocks) at the same time
 					msg = bytes.Repeat([]byte{byte(g), byte(i)}, 1100+g*8)
@@ -319,6 +324,7 @@ func init() {
 		par := make([][]string, G)
 		j2 := mk()
 		var wg sync.WaitGroup
+		var returned int64
 		start := make(chan struct{})
 		for g := 0; g < G; g++ {
 			wg.Add(1)
@@ -327,11 +333,25 @@ func init() {
 				<-start
 				for i := 0; i < N; i++ {
 					par[g] = append(par[g], j2(g, i))
+					atomic.AddInt64(&returned, 1)
 				}
 			}(g)
 		}
 		close(start)
-		wg.Wait()
+		// liveness: the concurrent phase must end. When it has not after the deadline (a lock that is never released, a
+		// goroutine waiting for ever) the run is reported as hanging; nothing else is read from the goroutines still out there
+		deadline := num(in, "deadline_s")
+		if deadline <= 0 {
+			deadline = 300
+		}
+		finished := make(chan struct{})
+		go func() { wg.Wait(); close(finished) }()
+		select {
+		case <-finished:
+		case <-time.After(time.Duration(deadline) * time.Second):
+			return map[string]interface{}{"calls": G * N, "different": -1, "first": "",
+				"hang": fmt.Sprintf("%d of %d concurrent calls had returned after %d s: the others never return", atomic.LoadInt64(&returned), G*N, deadline)}
+		}
 		seq := make([][]string, G)
 		j := mk()
 		for g := 0; g < G; g++ {
